@@ -554,6 +554,33 @@ def r6_edges_from_every_definition(ctx):
              forbidden=[r"get_ancestors_names\(\) if ", r" if isinstance\(", r"\bfor\b[^{}]*\bif\b"], construct="edges from the definitions")
 
 
+def r10_listing_protocol(ctx):
+    """'lists variables so that none appears before one it depends on': the graph object is a `Mapping` whose `__iter__` follows the computed
+    order, and `keys()` / `values()` / `items()` are the ones `Mapping` derives from it - an override returning a view of the definitions
+    lists the variables in the order they were written."""
+    ctx.rule("C15.R10", "VariablesDAG lists its variables through `__iter__` over the computed order only (keys / values / items not overridden)", 2)
+    key = ("leaspy.variables.dag", "VariablesDAG")
+    cls = ctx.ix.classes.get(key)
+    if cls is None:
+        raise AnalysisError("C15.R10", "anchor vanished: VariablesDAG")
+    over = [b for b in cls.body if isinstance(b, ast.FunctionDef) and b.name in ("keys", "values", "items", "__reversed__", "__contains__", "get")]
+    where = ("leaspy.variables.dag", "VariablesDAG.__iter__")
+    for b in over:
+        reads_order = "sorted_variables_names" in ast.unparse(b) or "self[" in ast.unparse(b) or "iter(self)" in ast.unparse(b)
+        if b.name in ("__contains__", "get") or reads_order:
+            ctx.ok("C15.R10", ("leaspy.variables.dag", f"VariablesDAG.{b.name}"), b, f"`{b.name}` overridden, but it follows the computed order / does not list", construct=f"override of {b.name}")
+        else:
+            ctx.violation("C15.R10", ("leaspy.variables.dag", f"VariablesDAG.{b.name}"), b, f"`VariablesDAG.{b.name}` is overridden and returns `{ast.unparse(b.body[-1])[:60]}`: the listing follows the order "
+                          "in which the definitions were written, not the topological order - a variable can be listed before one it depends on", construct=f"override of {b.name}")
+    it = ctx.ix.func("leaspy.variables.dag", "VariablesDAG.__iter__", "C15.R10")
+    from ..astq import canon_lines
+    L = canon_lines(it.node, True, True)
+    ctx.form("C15.R10", it, it.node, "; ".join(L), {"return iter($0.sorted_variables_names)"}, ["sorted_variables_names"], "__iter__ follows the computed order",
+             "`VariablesDAG.__iter__` no longer iterates over `sorted_variables_names`", construct="__iter__ over the computed order")
+    if not over:
+        ctx.ok("C15.R10", where, None, "keys / values / items are the ones `Mapping` derives from `__iter__`", construct="no override of the listing methods")
+
+
 def rules(ctx):
     r6_edges_from_every_definition(ctx)
     r7_definitions_left_untouched(ctx)
@@ -562,6 +589,7 @@ def rules(ctx):
     r3_shipped_graphs(ctx)
     r4_orientation(ctx)
     r5_proxy(ctx)
+    r10_listing_protocol(ctx)
     # "invalid definitions are refused": every submission is judged on its own - nothing computed for one graph (a memo of orders / path
     # matrices filled before the refusal) is served to a later submission of the same definitions (same rule as C13.R5 / C01.R9)
     from ._shared import named_parameters_form
